@@ -12,9 +12,13 @@ func Copy(source, dest string) error {
 	}
 	defer in.Close()
 
-	out, err := os.Create(dest)
+	out, err := create(in, dest)
 	if err != nil {
 		return err
+	}
+	if out == nil {
+		/* dest is the very file we were asked to copy. All done. */
+		return nil
 	}
 	defer out.Close()
 	_, err = io.Copy(out, in)
@@ -29,4 +33,39 @@ func Copy(source, dest string) error {
 		os.Remove(dest)
 	}
 	return err
+}
+
+// create opens dest for writing and makes sure it is empty, like os.Create,
+// except that a dest which is the very file `in` reads from (the destination
+// directory is the one the file is already in) is left alone: truncating it
+// would destroy the file before a byte has been copied. In that case no
+// file and no error are returned.
+func create(in *os.File, dest string) (*os.File, error) {
+	out, err := os.OpenFile(dest, os.O_WRONLY|os.O_CREATE|os.O_EXCL, 0666)
+	if err == nil || !os.IsExist(err) {
+		return out, err
+	}
+
+	/* There's a file there already. Open it without truncating it, and only
+	 * empty it once we know it's not the one we're about to read. */
+	out, err = os.OpenFile(dest, os.O_WRONLY, 0666)
+	if err != nil {
+		return nil, err
+	}
+	inInfo, err := in.Stat()
+	if err == nil {
+		var outInfo os.FileInfo
+		if outInfo, err = out.Stat(); err == nil {
+			if os.SameFile(inInfo, outInfo) {
+				out.Close()
+				return nil, nil
+			}
+			err = out.Truncate(0)
+		}
+	}
+	if err != nil {
+		out.Close()
+		return nil, err
+	}
+	return out, nil
 }
